@@ -403,7 +403,7 @@ def N9():
         for z in (0.0, 1.0):
             n += 1
             ds = _mk_ds(ipp=(0., 0., z), inst=n, extra={'EchoTime': te})
-            if te == 20.0 and z == 0.0:
+            if te == 20.0 and z == 1.0:     # the file that sorts first in volume 1 (slice normal is -z)
                 ds.ImageOrientationPatient = [1., 0., 2.0 ** -17, 0., 1., 0.]
             st.add_dcm(ds)
     w = st.to_nifti_wrapper('')
